@@ -982,10 +982,11 @@ def replay(failed, repo=None):
                                          env={"ASAN_OPTIONS": "detect_leaks=0:abort_on_error=0",
                                               "UBSAN_OPTIONS": "print_stacktrace=1"})
             text = (out + err).replace(scratch, "<scratch>")
-            last = {"reproduced": rc != 0, "driver": driver, "output": text[-3000:],
+            # rc -9 = OUR wall-clock limit (loaded machine): not a reproduction
+            last = {"reproduced": rc not in (0, -9), "driver": driver, "output": text[-3000:],
                     "cmd": _fmt(cmd).replace(scratch, "<scratch>"),
                     "inputs_used": {k: vals[k] for k in inputs if isinstance(inputs[k], int)}}
-            if rc != 0:
+            if rc not in (0, -9):
                 return last
         if last is None:
             return {"reproduced": False, "driver": None,
